@@ -24,6 +24,8 @@ def check(run):
                         "embedded in item/list/object/items positions and nested twice; Pairwise on %s; Full; top-level IRI and lists), "
                         "each through ap.MarshalJSON/ap.UnmarshalJSON and T.MarshalJSON/(*T).UnmarshalJSON; decoded value projected by "
                         "reflection and compared by JsonRTTrace.tla with NFItem(input)" % ("all types" if thorough else "Object, Place, Link"))
+    from props import lifecommon
+    lifecommon.run_life(run, "json", "json-rt")
 
 
 def replay(run, path):
